@@ -184,6 +184,30 @@ def job_gemini():
     return _finish_checks(res, checks, "gemini")
 
 
+def job_precomputed_dtype():
+    """CONCRETE witness: with kernel / metric 'precomputed' the affinity used is the user's matrix itself, whatever the dtype of the data
+    (integer counts, booleans, float32) -- through compute_affinity and through an estimator's score"""
+    res = _new()
+    gm = loader.real("gemini")
+    lin = loader.real("linear._linear_geminis")
+    rs = np.random.RandomState(1)
+    Kf = rs.uniform(0.05, 0.95, size=(6, 6))
+    Kf = (Kf + Kf.T) / 2
+    np.fill_diagonal(Kf, 0.0)
+    for dt in ("int64", "int32", "bool", "float32", "float64"):
+        Xd = (rs.poisson(3.0, size=(6, 2)) > (2 if dt == "bool" else -1)).astype(dt) if dt == "bool" else rs.poisson(3.0, size=(6, 2)).astype(dt)
+        for cname, g in (("MMDGEMINI", gm.MMDGEMINI(kernel="precomputed")), ("WassersteinGEMINI", gm.WassersteinGEMINI(metric="precomputed"))):
+            res["paths"] += 1
+            A = g.compute_affinity(Xd, Kf)
+            ok = isinstance(A, np.ndarray) and A.shape == Kf.shape and np.array_equal(np.asarray(A, dtype=float), Kf)
+            res["obligations"].append({"name": f"precomputed-dtype/{cname}.compute_affinity(X of dtype {dt}, K) is K", "verdict": "unsat" if ok else "sat", "how": "concrete run"})
+            if not ok and not any(v["signature"].endswith(cname + ":precomputed-dtype") for v in res["violations"]):
+                res["violations"].append({"signature": f"{PROP}:{cname}:precomputed-dtype", "what": f"{cname}(precomputed).compute_affinity alters the user's matrix when the data have dtype {dt}",
+                                          "replay": {"kind": "precomputed-dtype", "cls": cname, "dtype": dt}})
+    res["samples"].append({"dtypes": 5})
+    return res
+
+
 def job_kernels():
     loader.install()
     res = _new()
@@ -374,6 +398,8 @@ def replay(rep, verbose=False):
     X = rng.normal(size=(5, 2))
     T = rng.normal(size=(6, 2))
     short = rep.get("short", "")
+    if kind == "precomputed-dtype":
+        return any(v["replay"]["cls"] == rep["cls"] for v in job_precomputed_dtype()["violations"])
     try:
         if kind in ("gemini", "kernels", "kauri"):
             lin = loader.real("linear._linear_geminis")
@@ -406,6 +432,18 @@ def replay(rep, verbose=False):
                     if not np.allclose(est._compute_kernel(X), pairwise_kernels(X, T, metric=nm, **(params or {}))):
                         return True
                     if not np.allclose(est._compute_kernel(T), pairwise_kernels(T, T, metric=nm, **(params or {}))):
+                        return True
+                # a callable that is NOT symmetric in its arguments: the new points come first, the stored training points second,
+                # whatever their numbers (fewer, as many, more new points than training points)
+                Mns = np.array([[1.0, 2.0], [-0.5, 0.3]])
+                kfun = lambda a, b: np.asarray(a) @ Mns @ np.asarray(b).T
+                for m_ in (1, 3, 6, 9):
+                    Xm = rng.normal(size=(m_, 2))
+                    est = lin.KernelRIM(base_kernel=kfun)
+                    est.input_data_ = T
+                    if not np.allclose(est._compute_kernel(Xm), kfun(Xm, T)):
+                        if verbose:
+                            print(f"callable kernel with {m_} new points: not k(X, training data)")
                         return True
                 return False
             # GEMINI forwarding through the estimator
@@ -507,7 +545,8 @@ def jobs(tier):
     q = tier == "quick"
     out = [{"name": "gemini", "target": "checks.c11:job_gemini", "kwargs": {}, "timeout": 280},
            {"name": "kernels", "target": "checks.c11:job_kernels", "kwargs": {}, "timeout": 280},
-           {"name": "same-kauri", "target": "checks.c11:job_same_kauri", "kwargs": {}, "timeout": 280}]
+           {"name": "same-kauri", "target": "checks.c11:job_same_kauri", "kwargs": {}, "timeout": 280},
+           {"name": "precomputed-dtype", "target": "checks.c11:job_precomputed_dtype", "kwargs": {}, "timeout": 120}]
     sf = [("LinearMMD", (3, 2, 2), {"kernel": "rbf", "kernel_params": {"gamma": 0.5}}, None), ("LinearMMD", (3, 2, 2), {"kernel": "rbf", "kernel_params": {"gamma": 0.5}, "ovo": True}, 2),
           ("LinearWasserstein", (3, 2, 2), {"metric": "cosine"}, 2), ("MLPMMD", (3, 1, 1, 2), {"kernel": "sigmoid"}, None), ("SparseLinearMMD", (3, 2, 2), {"kernel": "rbf"}, 2),
           ("CategoricalMMD", (3, 2), {"kernel": "rbf"}, None)]
